@@ -43,10 +43,10 @@ CLAIM = ("Every EOS class of the library with every constants vector of its latt
 LEVEL_NOTE = ("trusted: numpy, the finite-difference stencils, the transcription of the three documented jump conditions; assumed: "
               "defects confined to states/constants between lattice values are not seen; derivative identities are decided to 1e-6 "
               "by finite differences, not exactly; 'physically reasonable starting guess' is the rule stated in the module docstring")
-BOUND = {"quick": "36 EOS instances x 9-10 densities x 7 values; 4 residual classes x 9 EOS x 3 symmetries x 4 initial states x 5^3 states; "
+BOUND = {"quick": "33 EOS instances x 9-10 densities x 7 values; 4 residual classes x 9 EOS x 3 symmetries x 4 initial states x 5^3 states; "
                   "Newton: 7 EOS x 3 geometries x 2-4 initial states x 4 guesses",
-         "thorough": "36 EOS instances x 17 densities x 12 values; 4 residual classes x 36 EOS x 3 symmetries x 4 initial states x 7^3 states; "
-                     "Newton: 12 EOS x 3 geometries x 2-5 initial states x 7 guesses"}
+         "thorough": "33 EOS instances x 17 densities x 12 values; 4 residual classes x 33 EOS x 3 symmetries x 4 initial states x 7^3 states; "
+                     "Newton: 12 EOS x 3 geometries x 2-5 initial states x 4-7 guesses"}
 RULE = ("tasks = (kind, EOS instance[, residual class, symmetry, initial state | geometry, initial state]); an evaluation is one call of a "
         "public EOS / residual / solver method; a case is non-trivial and distinct by (EOS, state) for closures, by (residual, EOS, "
         "symmetry, initial state, evaluation state) for Jacobians with a finite non-singular F_prime, and by (EOS, geometry, initial "
@@ -506,7 +506,7 @@ def run_jac(task):
 
 # --------------------------------------------------------------------------------------------------------------- Newton
 
-# guesses for the gas EOS in units (rho0, u0^2, |u0|); the first four are xpmc.hydro_more.BBNOH_GUESS (asserted in tasks())
+# guesses for the gas EOS in units (rho0, u0^2, |u0|); the first four are xpmc.hydro_more.BBNOH_GUESS (asserted in postprocess())
 GUESS_GAS = {"quick": [[5.0, 1.0, 1.0], "default", [3.0, 0.5, 0.4], [8.0, 0.7, 0.3]],
              "thorough": [[5.0, 1.0, 1.0], "default", [3.0, 0.5, 0.4], [8.0, 0.7, 0.3], [2.0, 0.5, 0.5], [15.0, 1.0, 1.0], [50.0, 1.0, 0.5]]}
 # absolute guesses for the metals (cgs): the shipped example's, the class default, two more near the acoustic limit
